@@ -351,6 +351,7 @@ ARGS_LOOP:
 
 			// iterate over the possible cli args and try matching against expectations
 			verbatim := iterator.Value() // the iterator moves when an option consumes its arguments
+			passedThrough := false
 			for _, p := range optPair {
 				// handle full option match
 				optionMatches := getAliasNameFromPartialEntry(currentProgramNode, p.Option)
@@ -371,7 +372,11 @@ ARGS_LOOP:
 
 					switch currentProgramNode.unknownMode {
 					case Pass, Warn:
-						currentProgramNode.ChildText = append(currentProgramNode.ChildText, verbatim)
+						// a bundle with several unknown letters is still a single token
+						if !passedThrough {
+							currentProgramNode.ChildText = append(currentProgramNode.ChildText, verbatim)
+							passedThrough = true
+						}
 					}
 					continue
 				}
